@@ -320,6 +320,10 @@ pub fn run_c07(a: &Args) {
         if handed != sent || replies != sent || others != 0 { st.fail(format!("[C07 websocket] {sent} keep-alives sent (among packets that are not keep-alives), {handed} handed to the caller, the peer received {replies} reply messages and {others} other messages"), format!("wska {} {n}", mode_tag(compressed))); }
         st.notes.push(format!("websocket keep-alive burst ({} mode): {sent} sent, {handed} handed over, {replies} replies seen by the peer", mode_tag(compressed)));
       } }
+    { let iort = tokio::runtime::Builder::new_multi_thread().worker_threads(2).enable_all().build().unwrap();
+      for compressed in [true, false] { for n in [1usize, 2] { st.evaluations += 1; st.bump("idle after reads (websocket)");
+        let replies = crate::c20::ws_idle_after_reads_case(&iort, compressed, n);
+        if replies != n { st.fail(format!("[C07 websocket] the caller read the {n} keep-alive(s) of one message and then stayed idle (connection open): the peer received {replies} of the {n} replies"), format!("wsidle {} {n}", mode_tag(compressed))); } } } }
     // ... and a lock-step WebSocket peer whose 148-byte messages keep straddling the end of the receive buffer (the adaptor hands out a message in two parts)
     { let iort = tokio::runtime::Builder::new_multi_thread().worker_threads(2).enable_all().build().unwrap();
       for compressed in [true, false] { let rounds = if a.thorough() { 1500 } else { 300 };
